@@ -39,19 +39,21 @@ DefinitelyHidden(cand, B(_)) == \E n \in cand : B(n) = 1
 PossiblyHidden(cand, B(_)) == \E n \in cand : B(n) \in {1, 2}
 
 \* vertical angle in millidegrees must lie on the right side of level and hit the exact special values
-\* dh4 = 4 * (elevation of c + target_elev - observer eye elevation), d2 = squared map distance
-AngleSideOK(mdeg, dh4, d2) ==
-  /\ dh4 = 0 => mdeg = 90000
-  /\ dh4 > 0 => mdeg > 90000 /\ mdeg <= 180000
-  /\ dh4 < 0 => mdeg < 90000 /\ mdeg >= 0
-  /\ dh4 * dh4 = 16 * d2 => (IF dh4 > 0 THEN mdeg \in 134999..135001 ELSE mdeg \in 44999..45001)
+\* dhs = sign of dh = elevation of c + target_elev - observer eye elevation (2 = too close to level to call),
+\* dh4 = 4 * dh when that is a small integer (dh4ok = 1), d2 = squared map distance
+AngleSideOK(mdeg, dhs, dh4ok, dh4, d2) ==
+  /\ dhs = 0 => mdeg = 90000
+  /\ dhs = 1 => mdeg > 90000 /\ mdeg <= 180000
+  /\ dhs = -1 => mdeg < 90000 /\ mdeg >= 0
+  /\ (dh4ok = 1 /\ dh4 # 0 /\ dh4 * dh4 = 16 * d2) =>
+        (IF dh4 > 0 THEN mdeg \in 134999..135001 ELSE mdeg \in 44999..45001)
 
-\* verdict for one cell.  o = [neg1, is180, inrange, angok, mdeg, dh4] observed output class of the cell
+\* verdict for one cell.  o = [neg1, is180, inrange, angok, mdeg, dhs, dh4ok, dh4] observed output class of the cell
 CellClause(o, isObserver, cand, B(_), d2) ==
   IF isObserver THEN (IF o.is180 = 1 THEN "ok" ELSE "observer_cell_is_not_180")
   ELSE IF o.neg1 = 1 THEN (IF PossiblyHidden(cand, B) THEN "ok" ELSE "reported_invisible_but_nothing_hides_it")
   ELSE IF DefinitelyHidden(cand, B) THEN "reported_visible_but_a_nearer_cell_hides_it"
   ELSE IF o.inrange # 1 THEN "visible_value_outside_0_180"
-  ELSE IF o.angok # 1 \/ ~AngleSideOK(o.mdeg, o.dh4, d2) THEN "vertical_angle_wrong"
+  ELSE IF o.angok # 1 \/ ~AngleSideOK(o.mdeg, o.dhs, o.dh4ok, o.dh4, d2) THEN "vertical_angle_wrong"
   ELSE "ok"
 =============================================================================
